@@ -12,7 +12,7 @@ RULE = ('cases = (start, end) in {zbl, bornmayer, buck, morse, coul+buck, polyno
         '(detach, attach) lattice incl. integer-typed knots x r_min (3 interior points, buck4 type) x three constructions {Python classes, '
         'spline() modifier with > / >= markers, as.buck4 vs its documented long form}; each spline probed at 25+ separations (knots, '
         'nextafter neighbours, +-1e-6, interior lattice, outside); every case executed; non-trivial = every case (all end potentials curved)')
-RULE += '; every spline also with its FIRST part carrying its own lower bound (>= and >, probed below / at / above it); as.buck4 with C = 0 and A = 0'
+RULE += '; every spline also with its FIRST part carrying its own lower bound (>= and >, probed below / at / above it); as.buck4 with C = 0 and A = 0; detach / attach points at negative arguments (a function written in x = r - r_e and moved into place with trans()), exp_spline and buck4_spline, value and derivatives against the documented construction'
 ASSUMPTIONS = [
     'the advertised shapes: exp(sum B_i r^i) + C from the public splineCoefficients; 5th-order polynomial below r_min, 3rd-order above',
     'continuity is judged on the advertised shape evaluated from splineCoefficients against exact jets of the end potentials; allowance = backward-error bound of the '
@@ -50,6 +50,12 @@ def cases(tier):
                 if isinstance(d, int) and isinstance(a, int) and f == 0.5 and (a - d) % 2 == 0:
                     rm = (a + d) // 2          # all three knots integer-typed
                 out.append(dict(start=s, end=e, detach=d, attach=a, kind='buck4_spline', rmin=rm))
+    # knots at negative arguments: a function written in x = rho - rho_e (or r - r_e) and moved into place with trans()
+    for kind, rm in (('exp_spline', None), ('buck4_spline', -6.5), ('buck4_spline', -5.0)):
+        for d_, a_ in ((-8.0, -4.0), (-3.0, -1.0), (-2.0, 0.0), (-1.5, 1.0)):
+            if rm is not None and not d_ < rm < a_:
+                continue
+            out.append(dict(signed=True, kind=kind, rmin=rm, detach=d_, attach=a_))
     # as.buck4 shorthand against its documented long form
     for A, rho, C in ((1388.773, 0.3623, 175.0), (1000.0, 0.3, 30.0), (500, 1, 60), (1388.773, 0.3623, 0), (800.0, 0.29, 0.0), (0, 0.3, 30.0)):
         for rd, rm, ra in ((1.2, 2.1, 2.6), (1, 2, 3), (0.9, 1.5, 3.1), (1.5, 1.9, 2.2), (1.0, 1.3, 3.0)):
@@ -212,8 +218,36 @@ def check_spline(f, case, s_it, e_it, how, viol, s_obj=None, e_obj=None):
     return n
 
 
+def run_signed(case):
+    """spline(...) with detach / attach points at negative arguments, placed with trans(): the modifier route against the reference semantics"""
+    d_, a_, kind, rm = case['detach'], case['attach'], case['kind'], case['rmin']
+    sp = {"mod": "spline", "start": form('polynomial', 5.0, 0.3, 0.02), "detach": ['>', d_], "kind": kind, "rmin": rm, "attach": ['>', a_],
+          "end": form('polynomial', 2.0, -0.2, 0.01), "first": ['>', -30.0]}
+    dd = D(mod('trans', D(('>', -30.0, sp)), x=-25.0))
+    fn = R.config_read(M.pair_ini('LAMMPS', [('A', 'B', dd)], 40.0, 6)).potentials[0].potentialFunction
+    viol, n = [], 0
+    env = M.env()
+    rs = sorted(set([25.0 + t for t in (d_ - 2.0, d_ - 0.5, d_, d_ + 0.25 * (a_ - d_), 0.5 * (d_ + a_), d_ + 0.9 * (a_ - d_), a_, a_ + 0.5, a_ + 3.0)]))
+    for r in rs:
+        j = X.ev_defn(dd, r, env)
+        for which, want in (('__call__', j.v), ('deriv', j.d1), ('deriv2', j.d2)):
+            if which != '__call__' and not hasattr(fn, which):
+                continue
+            got = fn(r) if which == '__call__' else getattr(fn, which)(r)
+            n += 1
+            if not abs(got - want) <= 1e-7 * (abs(want) + abs(j.v) + 1.0):
+                viol.append(dict(sig='signed-knots:%s' % which, msg='%s: %s(%r) = %r, the documented construction gives %r (detach %r, attach %r at x = r - 25)'
+                                 % (X.render_defn(dd), which, r, got, want, d_, a_), detail={}))
+                break
+        if viol:
+            break
+    return dict(outcome='ok:signed:%s' % kind if not viol else 'violation', nontrivial=True, evals=n, violations=viol)
+
+
 def run_case(case):
     viol = []
+    if case.get('signed'):
+        return run_signed(case)
     if 'buck4' in case:
         return run_buck4(case)
     s_it, e_it = item_of(case['start']), item_of(case['end'])
